@@ -19,6 +19,11 @@ RULE = ("seeded generator of histories on 1-3 raw QUIC connections to one real s
         "between the presentations (recording authenticator whose verdict is a function of the presenting connection, the attempt "
         "number, the announced bandwidth and of revoke / grant steps of the history): accepted on one connection and to be rejected on "
         "another, in both orders, sequentially and concurrently, each followed by proxy attempts on the rejected connection. "
+        "Client ids: accepting verdicts whose id is EMPTY, one id shared by several connections, a 1200-byte id, ids with odd bytes "
+        "(NUL, newline, invalid UTF-8) or looking like another connection's id (authenticator policy field idhex), each followed on "
+        "the same connection by rejected credentials, the same credential again, other accepted credentials, concurrent bursts of auth "
+        "requests, proxy streams / datagrams and close (directed templates D1-D3 per id class + random histories); online / connect "
+        "events are attributed to connections by their neighbours in the log (never by the id) and counted per connection. "
         "After every stream / datagram an ordering barrier (HTTP request on the same connection). "
         "Non-trivial = the history contains a proxy attempt (0x401 stream or datagram) on a connection that has not been accepted "
         "AND an accepted connection that reaches the outbound. Distinct = distinct JSON history.")
@@ -166,6 +171,72 @@ def shared_templates(rng, rep):
     return out
 
 
+# ---- client ids: Authenticate(addr, auth, tx) -> (ok, id) may answer an accepting verdict with ANY id.  Classes of ids the
+# recording authenticator hands out (policy field idhex): the EMPTY id (the http / command authenticators of extras pass a
+# backend's answer through, which may be empty), ONE id shared by every accepted credential / connection of the history
+# (one user, several devices), a very long id, ids with odd bytes (NUL, newline, invalid UTF-8, a lone space) and ids that
+# look like ANOTHER connection's default id / carry another connection's tag.
+ID_CLASSES = ["empty", "shared", "long", "odd"]
+ODD_IDS = [b"\x00", b" ", b"\n", b"\xff\xfe", b"c1-", b"c0-", b"id/c1-good-c1-0", b"id/c0-good-c0-0", b"\xe2\x80\xae", b"0", b"false", b"nobody",
+           b"\x00\x00", b"a\x00b", b"\r\n\r\n", b"%00", b"id/"]
+
+
+def id_hex(rng, klass):
+    if klass == "empty":
+        return ""
+    if klass == "shared":
+        return b"user".hex()
+    if klass == "long":
+        return (b"L" * 1199 + b"!").hex()
+    return rng.choice(ODD_IDS).hex()
+
+
+def apply_ids(rng, h, klass, keep_default=0.0):
+    """every credential that the authenticator will accept in this history (good-*, or one with a policy) is answered with an
+    id of the given class (a fraction keep_default keeps the default id: histories mixing both)."""
+    pol = h.setdefault("pol", {})
+    for a in h["acts"]:
+        rs = [a["req"]] if a["a"] == "auth" else a.get("burst", []) if a["a"] == "burst" else []
+        for r in rs:
+            cred = r.get("auth", "")
+            if not r.get("hasa") or not (cred.startswith("good") or cred in pol):
+                continue
+            if cred in pol and "idhex" in pol[cred]:
+                continue
+            if rng.random() < keep_default:
+                pol.setdefault(cred, {})
+                pol[cred].setdefault("idhex", None)
+                continue
+            pol.setdefault(cred, {})["idhex"] = id_hex(rng, klass)
+    h["idclass"] = klass
+    return h
+
+
+def id_templates(rng, rep):
+    """accepted with an id of each class, THEN rejected / repeated / other accepted credentials on the same, now authenticated,
+    connection: no further Authenticate call for it, every later auth request answered 233, one Connect / online event, proxying
+    goes on; the same with two connections that are given the SAME id (sequentially / driven concurrently), and with
+    concurrent auth requests (bursts) after the accept."""
+    out = []
+    for ki, klass in enumerate(ID_CLASSES):
+        x = "good-k%d-%s" % (rep, klass)
+        cx = "cred:" + x + ":" + rng.choice(CCRX_ACCEPTED)
+        cfg = lambda: dict(rand_cfg(rng), udp=True)
+        # D1 one connection: rejected, accepted (id of the class), rejected, the SAME credential again, another accepted one, ...
+        out.append(apply_ids(rng, history(rng, rand_cfg(rng), 1, False,
+                                          [(0, "bad"), (0, cx), (0, "bad"), (0, "tcp"), (0, cx), (0, "good"), (0, "miss"), (0, "udp"), (0, "bad"),
+                                           (0, "tcp"), (0, "close")], {x: {}}), klass))
+        # D2 two connections accepted with the same credential (same id unless the class draws one per credential), later attempts on both
+        out.append(apply_ids(rng, history(rng, cfg(), 2, (rep + ki) % 2 == 1,
+                                          [(0, cx), (1, cx), (0, "bad"), (1, cx), (0, "tcp"), (1, "udp"), (1, "bad"), (0, cx), (0, "udp"), (1, "tcp"),
+                                           (0, "close"), (1, "good"), (1, "tcp"), (1, "close")], {x: {}}), klass))
+        # D3 concurrent auth requests on the connection after the accept (go verdict only)
+        out.append(apply_ids(rng, history(rng, cfg(), 1, False,
+                                          [(0, cx), (0, "burst-mixed"), (0, "tcp"), (0, "burst-bad"), (0, "udp"), (0, "burst-good"), (0, "close")],
+                                          {x: {}}), klass))
+    return out
+
+
 def gen(rng, tier):
     scale = 1 if tier == "quick" else 15
     cases = []
@@ -201,6 +272,20 @@ def gen(rng, tier):
             kinds = [(c, rng.choice(extra)) if rng.random() < 0.45 else (c, k) for (c, k) in kinds]
             kinds += [(c, "tcp") for c in range(nconn)]
         cases.append(history(rng, rand_cfg(rng), nconn, rng.random() < 0.5, kinds, pol))
+    # (appended last, from a generator of their own: the cases above are the same as before for a given seed)
+    import random
+    rng2 = random.Random(rng.getrandbits(64))
+    for rep in range(scale):
+        cases += id_templates(rng2, rep)
+    IDKINDS = ["good"] * 25 + ["bad"] * 20 + ["miss"] * 8 + ["tcp"] * 20 + ["udp"] * 15 + ["close"] * 4 + ["burst-mixed"] * 2
+    for i in range(8 * scale):
+        nconn = rng2.choice([1, 1, 2, 3])
+        kinds = [(rng2.randrange(nconn), rng2.choice(IDKINDS)) for _ in range(rng2.randint(6, 12))]
+        creds = ["good-r%d-%d" % (i, j) for j in range(2)]
+        kinds = [(c, "cred:" + rng2.choice(creds)) if rng2.random() < 0.3 else (c, k) for (c, k) in kinds]
+        kinds += [(c, "tcp") for c in range(nconn)]
+        h = history(rng2, rand_cfg(rng2), nconn, rng2.random() < 0.4, kinds, {x: {} for x in creds})
+        cases.append(apply_ids(rng2, h, ID_CLASSES[i % len(ID_CLASSES)] if i % 8 < 6 else "empty", keep_default=0.3 if i % 2 else 0.0))
     return cases
 
 
@@ -214,9 +299,9 @@ def to_coq(c, o):
 
 def klass(c, o):
     if any(a["a"] == "burst" for a in c["acts"]):
-        return "concurrent-auth-burst(go verdict only)"
-    return "conns=%d/%s/masq=%d/%s" % (c["nconn"], "concurrent" if c["par"] else "sequential", c["cfg"]["masq"],
-                                      "udp" if c["cfg"]["udp"] else "noudp")
+        return "concurrent-auth-burst(go verdict only)" + ("/ids=" + c["idclass"] if c.get("idclass") else "")
+    return "conns=%d/%s/masq=%d/%s%s" % (c["nconn"], "concurrent" if c["par"] else "sequential", c["cfg"]["masq"],
+                                        "udp" if c["cfg"]["udp"] else "noudp", "/ids=" + c["idclass"] if c.get("idclass") else "")
 
 
 def features(c, o):
